@@ -3,7 +3,10 @@
 // Keys are built from a small TABLE of labels / names selected by symbolic indices, so that repeated label NAMES with
 // different values (a=1, a=2), repeated identical labels (same index twice), empty strings and a non-ASCII string all
 // occur.  `Hash` output is observed through a recording `Hasher` (the exact sequence of write calls), not through AHash.
-// Everything here is BOUNDED by the table and by the label count stated per harness.
+// Everything here is BOUNDED by the table and by the label count stated per harness (<= 2 quick, = 3 thorough, three
+// concrete pairs for the 8-label Vec arms); the get_hash() memo harnesses (mod rg) are rely/guarantee over all SC
+// interleavings.  Measured CBMC limits that shaped the harnesses: the label count must be a constant inside the checked
+// code (dispatch outside, `with_key*`), AHash cannot be run on symbolic or heap data, Vec<Label> paths need concrete content.
 use super::*;
 use std::sync::Arc;
 
@@ -379,7 +382,7 @@ fn fixed8(j: u8) -> Label {
     }
 }
 /// 8-label key in one of three concrete layouts of [s0, F0, F1, s1, F2, F3, F4, F5] (as is / reversed / rotated by 3);
-/// `layout` is a literal at every call site
+/// every argument is a literal at every call site
 fn key8(layout: u8, s0: u8, s1: u8) -> Key {
     let l: [Label; 8] = match layout {
         0 => [lab8(s0), fixed8(0), fixed8(1), lab8(s1), fixed8(2), fixed8(3), fixed8(4), fixed8(5)],
@@ -388,34 +391,44 @@ fn key8(layout: u8, s0: u8, s1: u8) -> Key {
     };
     Key::from_static_parts("k", Box::leak(Box::new(l)))
 }
-fn check_n8(ka: Key, kb: Key, s0: u8, s1: u8, t0: u8, t1: u8, flipped: bool) {
+// The Vec arms cost CBMC ~3 minutes and 5 GB for ONE pair of concrete 8-label keys (symbolic slot content, or 16 concrete
+// pairs in one harness, exceeded 12 GB): three concrete pairs, one harness each.
+fn check_n8(ka: Key, kb: Key, expect_eq: bool) {
     let eq = ka == kb;
+    assert!(eq == expect_eq);
     assert!(eq == (ka.cmp(&kb) == cmp::Ordering::Equal), "a == b exactly when a.cmp(b) == Equal");
     assert!(ka.cmp(&kb) == kb.cmp(&ka).reverse());
-    if eq {
-        assert!(stream(&ka).same(&stream(&kb)), "a == b implies identical Hash output");
-    }
-    // pairwise distinct names + same multiset => equal whatever the layout
-    let distinct = (s0 == 2) != (s1 == 2);
-    if distinct && s0 == t0 && s1 == t1 {
-        assert!(eq, "label order does not matter when names are pairwise distinct");
-    }
-    kani::cover!(eq && flipped && s0 != s1);
-    kani::cover!(!eq && s0 == t0 && s1 == t1); // repeated name: relative order of a=1 / a=2 differs between layouts
+    assert!(stream(&ka).same(&stream(&kb)) == eq, "a == b implies identical Hash output (and these unequal keys differ)");
 }
-pub fn c03_vec_path_n8_body(s0: u8, s1: u8, t0: u8, t1: u8, layout: u8) {
-    kani::assume(s0 < 3 && s1 < 3 && t0 < 3 && t1 < 3 && layout < 3);
-    match layout {
-        0 => check_n8(key8(0, s0, s1), key8(0, t0, t1), s0, s1, t0, t1, false),
-        1 => check_n8(key8(0, s0, s1), key8(1, t0, t1), s0, s1, t0, t1, true),
-        _ => check_n8(key8(0, s0, s1), key8(2, t0, t1), s0, s1, t0, t1, true),
-    }
+/// pairwise distinct names, same labels, reversed order => equal, cmp Equal, same Hash stream
+pub fn c03_vec_path_n8_distinct_body(_unused: u8) {
+    check_n8(key8(0, 0, 2), key8(1, 0, 2), true);
 }
 #[cfg(kani)]
 #[kani::proof]
 #[kani::unwind(10)]
-fn c03_vec_path_n8() {
-    c03_vec_path_n8_body(kani::any(), kani::any(), kani::any(), kani::any(), kani::any());
+fn c03_vec_path_n8_distinct() {
+    c03_vec_path_n8_distinct_body(kani::any());
+}
+/// repeated name (a=1, a=2) met in the opposite relative order => not equal, and cmp / Hash agree with that
+pub fn c03_vec_path_n8_repeated_body(_unused: u8) {
+    check_n8(key8(0, 0, 1), key8(1, 0, 1), false);
+}
+#[cfg(kani)]
+#[kani::proof]
+#[kani::unwind(10)]
+fn c03_vec_path_n8_repeated() {
+    c03_vec_path_n8_repeated_body(kani::any());
+}
+/// one label value differs (a=1 vs a=2), rotated layout => not equal, cmp not Equal and dual
+pub fn c03_vec_path_n8_unequal_body(_unused: u8) {
+    check_n8(key8(0, 0, 2), key8(2, 1, 2), false);
+}
+#[cfg(kani)]
+#[kani::proof]
+#[kani::unwind(10)]
+fn c03_vec_path_n8_unequal() {
+    c03_vec_path_n8_unequal_body(kani::any());
 }
 
 // ------------------------------------------------------------------------------------------------ real hasher, concrete keys
@@ -656,7 +669,13 @@ pub mod stubbed {
     #[kani::unwind(10)]
     #[kani::stub(super::generate_key_hash, gkh_rec)]
     fn c03_paths_n8_a() {
-        check_lists(kani::any(), 6, 7, kani::any(), 0, 4, false);
+        check_lists(kani::any(), 6, 7, kani::any(), 0, 1, false);
+    }
+    #[kani::proof]
+    #[kani::unwind(10)]
+    #[kani::stub(super::generate_key_hash, gkh_rec)]
+    fn c03_paths_n8_c() {
+        check_lists(kani::any(), 6, 7, kani::any(), 2, 4, false);
     }
     #[kani::proof]
     #[kani::unwind(10)]
